@@ -129,6 +129,17 @@ Theorem C12_model_copy_equiv :
 Proof. exact model_copy_equiv. Qed.
 Print Assumptions C12_model_copy_equiv.
 
+(* "... whose reactions, metabolites, genes and groups are distinct objects pointing at the copy": every element of
+   the four lists of the copy is a cell created by the copy whose _model is the copy, the context stack of the copy
+   is a fresh empty list and its solver a fresh object (the Coq monitor `points_to_copy_b`, now for all heaps) *)
+Theorem C12_model_copy_points_to :
+  forall T h m h' m' ok,
+    table_safe T = true -> table_shape T = true -> wf_model_content T h m = true ->
+    (exists mc s, get h m = Some mc /\ attr mc "_solver" = Some (Ref s)) ->
+    model_copy T h m = (h', m', ok) -> points_to_copy_b (List.length h) h' m' = true.
+Proof. exact model_copy_points_to. Qed.
+Print Assumptions C12_model_copy_points_to.
+
 (* set order and attribute order are not content: sort_items is invariant under permutation (distinct keys) *)
 Theorem C12_sort_items_permutation :
   forall l1 l2, Permutation.Permutation l1 l2 -> List.NoDup (List.map ikey l1) -> sort_items l1 = sort_items l2.
